@@ -336,6 +336,22 @@ Definition decimal_lcm (checked : bool) (a b : Z * Z) : option (Z * Z) :=
   then None
   else Some (decimal_new (u32w prod / Z.gcd (u32w a1) (u32w b1)) (Z.max ea eb)).
 
+(* ---------- multipleOf as matched by derivre (RemainderIs), u32 arithmetic written out ---------- *)
+(* derivative by an integer-part digit: remainder' = (remainder * 10 + digit * 10^scale) % divisor,
+   all in u32 (deriv.rs / relevance.rs of derivre) *)
+Definition rem_step_u32 (d scale r digit : Z) : Z :=
+  u32w (u32w (r * 10) + u32w (digit * u32w (10 ^ scale))) mod d.
+Definition rem_step (d scale r digit : Z) : Z := (r * 10 + digit * 10 ^ scale) mod d.
+(* json/compiler.rs signed_multiple_of_ast: the guard in front of RegexAst::MultipleOf *)
+Definition multiple_of_fits (c e : Z) : bool := c * 10 + 9 * 10 ^ e <=? 4294967295.
+Definition multiple_of_compiles (guard : bool) (c e : Z) : bool :=
+  negb (c =? 0) && (negb guard || multiple_of_fits c e).
+(* an unsigned integer literal is accepted when the remainder after its digits is 0,
+   starting from remainder = divisor (which also excludes the empty string) *)
+Definition rem_run_u32 (d scale : Z) (ds : list Z) : Z := fold_left (rem_step_u32 d scale) ds d.
+Definition multiple_of_accepts_int (d : Z) (ds : list Z) : bool :=
+  match ds with [] => false | _ => rem_run_u32 d 0 ds =? 0 end.
+
 (* ---------- specification side ---------- *)
 (* a plain integer literal: optional '-', then 0 or a non-zero-leading digit string *)
 Definition int_literal (z : Z) : bytes :=
